@@ -133,27 +133,41 @@ theorem mulX_eq_pmul (a : Sym) : mulX a = pmul a 2#16 :=
 theorem phi_gen : phi gen = 2#16 := by decide
 theorem phiInv_two : phiInv 2#16 = gen := by decide
 
+theorem phiInv_one' : phiInv 1#16 = gone := by decide
+
 theorem phiInv_injective : Function.Injective phiInv := fun a b h => by
   rw [← phi_phiInv a, ← phi_phiInv b, h]
 
 /-- `g^k` is (the coordinate vector of) `x^k` -/
 theorem g_pow_val (k : Nat) : (g ^ k).val = phiInv (xpow k) := by
   induction k with
-  | zero => rw [pow_zero, xpow_zero, phiInv_one]; rfl
+  | zero => rw [pow_zero, xpow_zero, phiInv_one']; rfl
   | succ k ih =>
     rw [pow_succ, mul_val, ih, xpow_succ, mulX_eq_pmul]
     show phiInv (pmul (phi (phiInv (xpow k))) (phi gen)) = _
     rw [phi_phiInv, phi_gen]
 
+theorem mulXIter_eq_iterate (k : Nat) (s : Sym) : mulXIter k s = mulX^[k] s := by
+  induction k generalizing s with
+  | zero => rfl
+  | succ k ih => exact ih (mulX s)
+
+/-- `xpow k` is the `k`-fold iterate of `mulX` on `1` -/
+theorem xpow_eq_iterate (k : Nat) : xpow k = mulX^[k] 1#16 := mulXIter_eq_iterate k _
+
+/-- `gpow gen k` is (the coordinate vector of) `x^k` -/
+theorem gpow_gen (k : Nat) (h : k < 2 ^ 64) : gpow gen k = phiInv (xpow k) := by
+  rw [← g_pow_val, pow_val _ _ h]; rfl
+
 theorem g_pow_eq_one_iff (k : Nat) : g ^ k = 1 ↔ xpow k = 1#16 := by
   constructor
   · intro h
     have h1 : phiInv (xpow k) = phiInv 1#16 := by
-      rw [← g_pow_val, h, phiInv_one]; rfl
+      rw [← g_pow_val, h, phiInv_one']; rfl
     exact phiInv_injective h1
   · intro h
     apply GF16.ext
-    rw [g_pow_val, h, phiInv_one]; rfl
+    rw [g_pow_val, h, phiInv_one']; rfl
 
 theorem g_pow_65535 : g ^ 65535 = 1 := (g_pow_eq_one_iff _).2 xpow_65535
 
@@ -162,14 +176,14 @@ theorem g_pow_ne_one (k : Nat) (h0 : 0 < k) (hk : k < 65535) : g ^ k ≠ 1 :=
 
 /-- the generator has multiplicative order exactly 65535 -/
 theorem orderOf_g : orderOf g = 65535 :=
-  (orderOf_eq_iff (by norm_num)).2 ⟨g_pow_65535, fun m hm h0 => g_pow_ne_one m h0 hm⟩
+  (orderOf_eq_iff (by decide)).2 ⟨g_pow_65535, fun m hm h0 => g_pow_ne_one m h0 hm⟩
 
 theorem g_pow_ne_zero (k : Nat) : g ^ k ≠ 0 := by
   intro h
   have h1 : g ^ (k * 65535) = 1 := by rw [mul_comm, pow_mul, g_pow_65535, one_pow]
   rcases Nat.eq_zero_or_pos k with hk | hk
   · subst hk; rw [pow_zero] at h; exact one_ne_zero' h
-  · have : g ^ (k * 65535) = 0 := by rw [pow_mul, h, zero_pow (by norm_num)]
+  · have : g ^ (k * 65535) = 0 := by rw [pow_mul, h, zero_pow (by decide)]
     rw [h1] at this
     exact one_ne_zero' this
 
@@ -213,7 +227,7 @@ instance instInv : Inv GF16 := ⟨fun a => ⟨ginv a.val⟩⟩
 theorem inv_val (a : GF16) : (a⁻¹).val = ginv a.val := rfl
 
 theorem inv_eq_pow (a : GF16) : a⁻¹ = a ^ 65534 :=
-  mk_gpow a.val 65534 (by norm_num)
+  mk_gpow a.val 65534 (by decide)
 
 instance instField : Field GF16 where
   __ := instCommRing
@@ -224,7 +238,7 @@ instance instField : Field GF16 where
     rw [inv_eq_pow]; exact mul_pow_65534 a ha
   inv_zero := by
     show (0 : GF16)⁻¹ = 0
-    rw [inv_eq_pow, zero_pow (by norm_num)]
+    rw [inv_eq_pow, zero_pow (by decide)]
   nnqsmul := _
   nnqsmul_def := fun _ _ => rfl
   qsmul := _
@@ -242,7 +256,7 @@ theorem gexp_eq (m : Nat) (h : m < 2 ^ 64) : (⟨gexp m⟩ : GF16) = (⟨gen⟩ 
   mk_gpow gen m h
 
 theorem gexp_65535 : gexp 65535 = gone := by
-  have := gexp_eq 65535 (by norm_num)
+  have := gexp_eq 65535 (by decide)
   exact congrArg GF16.val (this.trans g_pow_65535)
 
 theorem gexp_add (a b : Nat) (h : a + b < 2 ^ 64) : gexp (a + b) = gmul (gexp a) (gexp b) := by
@@ -315,6 +329,9 @@ end RS
 #print axioms RS.GF16.card
 #print axioms RS.GF16.pow_val
 #print axioms RS.GF16.orderOf_g
+#print axioms RS.GF16.gpow_gen
+#print axioms RS.GF16.xpow_eq_iterate
+#print axioms RS.GF16.instFintype
 #print axioms RS.GF16.exists_pow_eq
 #print axioms RS.GF16.mul_pow_65534
 #print axioms RS.GF16.instField
